@@ -12,7 +12,14 @@ makes.  Everything else (the fold lemmas, the step analysis) follows Lemmas/Tree
 
 A `Frame` bundles what is tracked: an entry invariant `PE`, an invariant `PR` of the rows of
 `TState.augs`, an invariant `PC` of the rows of the module cache and a per-call postcondition
-`PX root scope n e` ("`e` is what the conversion of `n` returned").
+`PX root scope n e` ("`e` is what the conversion of `n` returned").  `ClosedT` is what the traversal
+needs of a frame; `toEntry_okT` is the traversal.  Compared with C04's `Closed`: the base cases, `add`
+and the rpc-flag step know the call site; `add` / `merge` know that the node under construction is not
+an rpc / action, `setInp` / `setOut` that its `Dir` is still empty (`Evolve`, `stepFn_io_dir`).
+
+A second, smaller traversal (`RelFrame`, `toEntry_rel`) is for relations between the conversion
+state before and after a call that may depend on the `visiting` list (the module cache only grows;
+its keys stay distinct).
 -/
 set_option linter.unusedVariables false
 set_option linter.unusedSimpArgs false
